@@ -1230,3 +1230,22 @@ for _n in NATIVE.values():
     _n.module = 'contracts.secfld'
 C04_NATIVES = [n.name for n in _C04]
 C39_NATIVES = [n.name for n in _C39]
+
+
+# ---- listed known findings.  C04: reflected bitwise operators with a public LEFT operand on binary fields return a wrong VALUE
+#      (an unexpected exception, a wrong field route or a wrong value with a secret/right operand has a different key).
+#      C39: the threshold setter ACCEPTS 2t >= m (a refused valid threshold has a different key).
+import re as _re
+
+
+def _cls_bitwise_left(args, res, exc, msg):
+    return 'public-left-operand-wrong-value' if exc is None and _re.match(r"(and|or|xor):(int|fld): got \d+, expected one of", msg) else None
+
+
+def _cls_setter(args, res, exc, msg):
+    m, t0, t = args
+    return 'setter-accepts-2t>=m' if exc is None and 2 * t >= m and res['raised'] is None and res['after'] == t else None
+
+
+NATIVE['bitwise_public_left'].classify = _cls_bitwise_left
+NATIVE['threshold_setter'].classify = _cls_setter
